@@ -9,7 +9,7 @@ import Asn1Proofs.Lemmas.PerStr
   where the code moves the read position backwards (`Choice.decode` of an extension addition that read
   past the end of its open type: the position is reset to the end of the open type, which still lies
   behind the start of the CHOICE).  That rewind is the reason why the allocation bound of aligned PER is
-  `K * (consumed + 1) * (N + 1) ^ rewinds t` and not `K * (consumed + 1)`: see `CostPerTypes.lean` and
+  `K * (consumed + 1) * (N + 1) ^ rewinds t` and not `K * (consumed + 1)`: see `CostPerComp.lean` and
   the counterexample in `CostPerNeg.lean`.
 -/
 set_option linter.unusedSimpArgs false
